@@ -19,6 +19,9 @@ CLAIMED = {
  "C16": dict(tech=TECH + "resource ledger audited after quiescence (pool drain probe, NAT/QoS managers, kernel-map lookups, RADIUS record stream), idempotence under repeated and concurrent termination",
    text="Seeded exploration of session establishment prefixes x termination paths x second (sequential or concurrent) terminations against composites of the real components (DHCPv4 server + pool + NAT + QoS + loader over real kernel maps + RADIUS client; further session types as variants), followed by an audit of every resource the session held. Sampling, not proof.",
    note="Kernel maps are created by the harness with the value sizes the Go control plane marshals; XDP/TC programs are not loaded; the simulated RADIUS server answers every accounting request. Variants present in this build are listed in the evidence file.", ref="§5 C16"),
+ "C19": dict(tech="deterministic simulation of a clocked process: the natively compiled TC program on a simulated kernel clock over a real kernel map written by the real qos.Manager; oracle = exact rational reference bounds (upper over all windows, lower for a backlogged subscriber, rate 0 unlimited)",
+   text="Seeded exploration of arrival processes (sizes 1-65535, gaps 0 ns to days, kernel clock anywhere in 64 bits, rates 1 kbit/s-100 Gbit/s, bursts 1-2^32-1) against bpf/qos_ratelimit.c compiled natively, with the bucket written by the real control plane through cilium/ebpf into a real kernel map. Sampling, not proof.",
+   note="Native code generation instead of the BPF back end; one CPU at a time on a bucket; in-place map mutation emulated by lookup + write-back; needs CAP_BPF/root to create maps (a run that cannot create maps records the probe kernel_maps_unavailable and checks nothing).", ref="§5 C19"),
 }
 NA = {
  "C06": "static relation between Go and C declarations (sizes, offsets, byte order, key derivation for all inputs): no schedule, clock, fault or history can change it, so it is not a simulation target",
